@@ -14,7 +14,11 @@ Tie to the source
 Exploration: generator MPOs carry scalar prefactors (MpsMpoOBC.factor != 1, by multiplication or by canonisation with
 normalize=False); the option combinations method x subtract_E x precompute are dealt from a balanced deck (all 'exact' cases,
 every second 'trace' case inside the regime of the conservation clause) instead of independent coin flips, so that every
-pair of options meets inside every kind of local update on every seed.  A deterministic work guard (WorkGuard) abandons runs
+pair of options meets inside every kind of local update on every seed.  The 'exact' cases additionally deal normalize and
+the kind of u (real / imaginary / complex time) from the deck (exact_deck: method x subtract_E x normalize x u) and draw the
+charge among the sectors where the exactness clause applies: the dense comparison sees the NORM of the state only with
+normalize=False, a non-unitary evolution and no subtract_E, and that corner must be met by every method on every seed
+(counters exact_sees:*).  A deterministic work guard (WorkGuard) abandons runs
 whose Krylov solver does not finish; such a run is dropped like a timeout, but the solver's preconditions on the local
 generator (linearity, Hermiticity) are examined first and a violated one is reported as a broken contract, which makes
 `search` look for a concrete failing input next to the abandoned one.
@@ -98,9 +102,53 @@ def option_deck(rng, n):
     return out[:n]
 
 
+U_KINDS = ["real", "imag", "complex"]   # real time (u = 1j), imaginary time (u = 1), complex u
+
+
+def exact_deck(rng, n):
+    """strata of the 'exact' cases: balanced covering of method x subtract_E x normalize x u_kind (36 combinations, each
+    floor(n/36) or ceil(n/36) times), with precompute dealt evenly inside every (method, subtract_E) group so that
+    method x subtract_E x precompute stays balanced as in option_deck.  Independent coin flips for normalize and u left
+    the only region where the NORM of the state is compared with the dense reference -- normalize=False together with a
+    non-unitary evolution and without subtract_E (which leaves the state defined up to a scalar only) -- to chance:
+    less than one case per method and run."""
+    out = []
+    while len(out) < n:
+        block = []
+        for m in METHODS:
+            for s in (False, True):
+                grp = [{"method": m, "subtract_E": s, "normalize": nz, "u_kind": uk} for nz in (False, True) for uk in U_KINDS]
+                rng.shuffle(grp)
+                first = rng.random() < 0.5
+                for i, g in enumerate(grp):
+                    g["precompute"] = (i % 2 == 0) == first
+                if m == "12site":
+                    # half of the '12site' strata start from bond dimension 1 on N = 2 (see gen_case): for either normalize flag
+                    # one of the two non-unitary kinds of u and, by a coin, the real-time stratum of one of the flags
+                    coin = rng.random() < 0.5
+                    for nz in (False, True):
+                        pick = rng.choice(["imag", "complex"])
+                        for g in grp:
+                            if g["normalize"] == nz:
+                                g["grow"] = g["u_kind"] == pick or (g["u_kind"] == "real" and coin == nz)
+                block += grp
+        rng.shuffle(block)
+        out += block
+    return out[:n]
+
+
+def complete_charges(family, sym, N):
+    """admissible total charges whose sector has, at every bond, the whole left or the whole right space as its maximal bond
+    space (full_dims(...)['side_complete'], decision (a) in run()); only there the exactness clause is evaluated"""
+    ops = make_ops(family, sym)
+    adm = admissible_charges(family, sym, N)
+    return [n for n in adm if full_dims(ops, N, sym, 0 if n is None else n)["side_complete"]] or adm
+
+
 def gen_case(rng, quick, kind, st=None):
     """kind: 'trace' (any D, all options) | 'exact' (maximal bond dimension, dense comparison)
-    st: optional stratum {"method", "subtract_E", "precompute", "conserve", "N"} fixing the option combination (option_deck);
+    st: optional stratum {"method", "subtract_E", "precompute", "normalize", "u_kind", "conserve", "N"} fixing the option
+    combination (option_deck / exact_deck);
     "conserve" selects the regime of the conservation clause: real time and, for 2-site updates, a truncation that cannot bind"""
     st = st or {}
     family, sym = rng.choice(FAMILIES)
@@ -111,9 +159,15 @@ def gen_case(rng, quick, kind, st=None):
     cplx = rng.random() < 0.3
     times, dt, tk = gen_times(rng, quick)
     method = st.get("method") or rng.choice(METHODS)
-    u = "real" if st.get("conserve") else rng.choice(["real", "real", "imag", "complex"])
+    # at maximal bond dimension '12site' never enlarges a bond, so its 2-site branch would never meet the exactness clause.  On
+    # N = 2 the 2-site local problem IS the global one: from bond dimension 1, with a truncation that cannot bind, the first
+    # update takes the state to the maximal bond dimension and the result is exp(-u t H) psi0 exactly as well
+    grow = kind == "exact" and method == "12site" and bool(st.get("grow"))
+    if grow:
+        N = 2
+    u = "real" if st.get("conserve") else (st.get("u_kind") or rng.choice(["real", "real", "imag", "complex"]))
     # D = 1 only with '1site': expmv is pathologically slow on 2-site problems of (nearly) product symmetric states (see notes)
-    D = rng.choice([1, 2, 3, 4] if method == "1site" else [2, 3, 4]) if kind == "trace" else 2 ** N
+    D = rng.choice([1, 2, 3, 4] if method == "1site" else [2, 3, 4]) if kind == "trace" else (1 if grow else 2 ** N)
     nsplit = rng.choice([1, 1, 2])
     terms = gen_terms(rng, family, sym, N, cplx=cplx, long_range=rng.random() < 0.4)
     if kind != "trace":
@@ -125,17 +179,18 @@ def gen_case(rng, quick, kind, st=None):
     case = {
         "kind": kind, "family": family, "sym": sym, "N": N,
         "terms": terms, "nsplit": nsplit, "hfac": gen_hfac(rng, len(split_terms(terms, nsplit))),
-        "n": rng.choice(admissible_charges(family, sym, N)),
-        "D_total": D, "psi_seed": rng.randrange(1 << 30), "nsum": 1 if kind == "trace" else 3,
+        # 'exact': charges of sectors in which the exactness clause applies (every admissible charge in 'trace' cases)
+        "n": rng.choice(complete_charges(family, sym, N) if kind == "exact" else admissible_charges(family, sym, N)),
+        "D_total": D, "psi_seed": rng.randrange(1 << 30), "nsum": 1 if kind == "trace" or grow else 3,
         "times": times, "dt": dt, "grid": tk, "method": method, "order": rng.choice(["2nd", "4th"]),
         "u": {"real": [0.0, 1.0], "imag": [1.0, 0.0], "complex": [0.6, 0.8]}[u], "u_kind": u,
-        "normalize": rng.random() < 0.6,
+        "normalize": st["normalize"] if "normalize" in st else rng.random() < 0.6,
         "subtract_E": st["subtract_E"] if "subtract_E" in st else rng.random() < 0.3,
         "precompute": st["precompute"] if "precompute" in st else rng.random() < 0.4,
         "opts_svd": opts_svd,
         "callable_H": rng.random() < 0.35,
         "yield_initial": rng.random() < 0.2,
-        "stratum": "conserve" if st.get("conserve") else ("deck" if st else "free"),
+        "stratum": "conserve" if st.get("conserve") else ("deck-grow" if grow else "deck" if st else "free"),
     }
     return case
 
@@ -518,6 +573,11 @@ def oracles(ctx, case, res):
             else:
                 err = np.linalg.norm(w - ref) / n0
             ctx.count("exactness_checked")
+            if k == 0:
+                # what the comparison can see: the ray only (subtract_E), the ray and a conserved / restored norm, or a norm
+                # that must FOLLOW |exp(-u t H) psi0| (normalize=False in a non-unitary evolution)
+                sees = "ray_only" if case["subtract_E"] else ("norm_followed" if not (case["normalize"] or real_time) else "norm_kept")
+                ctx.count(f"exact_sees:{sees}:{case['method']}")
             if err > 1e-8:
                 fail("c10:exactness", f"snapshot {k} (t={t1}): |psi - expm(-u t H) psi0| = {err!r} at maximal bond dimension "
                      f"({case['method']}, {case['order']}, u={u})")
@@ -810,8 +870,10 @@ def run(ctx):
                 "every admissible charge (norm 1 or 1.5), N=2..6 (quick 2..5), methods 1site/2site/12site, orders 2nd/4th, u real/"
                 "imaginary/complex, time grids dyadic or decimal with dt dividing or not dividing the intervals, 1-2 snapshots, "
                 "normalize/subtract_E/precompute/yield_initial flags; 'exact' cases at maximal bond dimension (sum of 3 random MPS) "
-                "with method x subtract_E x precompute dealt from a balanced deck, every second 'trace' case dealt from the same deck "
-                "inside the regime of the conservation clause (real time, truncation that cannot bind; '12site' starts below the "
+                "in sectors where the exactness clause applies, with method x subtract_E x normalize x u (real/imaginary/complex) "
+                "dealt from a balanced deck of 36 combinations and precompute balanced inside every method x subtract_E group (half of "
+                "the '12site' strata instead start from bond dimension 1 on N=2, where the 2-site update is the global evolution), every "
+                "second 'trace' case dealt from the method x subtract_E x precompute deck inside the regime of the conservation clause (real time, truncation that cannot bind; '12site' starts below the "
                 "maximal bond dimension and enlarges bonds), 'order' cases with a time-dependent generator (precompute on/off, "
                 "prefactors). Non-trivial = every case (distinct by full input).")
     ctx.notes.append("interpretive decisions: (a) 'bond dimensions are maximal' = at every bond the bond space is the whole left or the "
@@ -827,11 +889,12 @@ def run(ctx):
         ctx.extra["consts"] = c
     budget = 60 if quick else 600
     t0 = time.time()
-    plan = [("trace", 22 if quick else 250), ("exact", 24 if quick else 200)]
+    plan = [("trace", 22 if quick else 250), ("exact", 36 if quick else 216)]
     for kind, n in plan:
-        # 'exact': every case takes its option combination from a balanced deck; 'trace': every second case is free, the others
-        # are dealt from the deck inside the regime where the conservation clause applies
-        deck = option_deck(rng, n)
+        # 'exact': every case takes its option combination (method x subtract_E x normalize x u, precompute) from a balanced
+        # deck; 'trace': every second case is free, the others are dealt from the deck inside the regime where the conservation
+        # clause applies
+        deck = exact_deck(rng, n) if kind == "exact" else option_deck(rng, n)
         for i in range(n):
             if elapsed(ctx, t0) > budget * (0.5 if kind == "trace" else 0.8):
                 ctx.count(f"{kind}_cases_cut_by_budget")
@@ -867,7 +930,7 @@ def search(ctx, broken, budget_s):
             order_case(ctx, rng, True)
         else:
             kind = rng.choice(["trace", "exact", "exact"])
-            st = option_deck(rng, 1)[0]
+            st = exact_deck(rng, 1)[0] if kind == "exact" else option_deck(rng, 1)[0]
             if hints and i % 4:
                 st = dict(rng.choice(hints), N=rng.choice([3, 4, 4] if kind == "exact" else [4, 5]))
             if kind == "trace":
